@@ -88,6 +88,17 @@ def check(tier):
     rep.trusted = ['Kani/CBMC floating-point model', 'RCDT and FACCT constants copied from the specification into /verif']
     rep.assumptions = ['documented domain of ber_exp: x >= 0, ccs in [sigma_min/sigma_max, 1] (here the superset [1/2, 1])']
     run_kani(rep, ['c09_base_sampler', 'c09_ber_exp_total'], decode_kani)
+    # plumbing / oracle validation on boundary points: base_sampler at u = RCDT[i] - 1, RCDT[i], RCDT[i] + 1; approx_exp on fixed points
+    for t in RCDT:
+        for u in (t - 1, t, t + 1):
+            if 0 <= u < 2 ** 72:
+                want = str(sum(1 for x in RCDT if u < x)); got = replay.call1(['base_sampler', u.to_bytes(9, 'big').hex()])
+                if got == want: rep.replayed += 1
+                else: rep.violation('base_sampler:differs-from-spec', 'base_sampler(%d) = %s, specification gives %s' % (u, got, want), {'replay_request': ['base_sampler', u], 'got': got, 'expected': want})
+    for x, ccs in ((0.0, 1.0), (0.3, 0.7), (0.2314993926072656, 0.8148006314615972), (0.6931471805599452, 0.5)):
+        want = str(ref_approx_exp(x, ccs)); got = replay.call1(['approx_exp', fhex(x), fhex(ccs)])
+        if got == want: rep.replayed += 1
+        else: rep.violation('approx_exp:differs-from-spec', 'approx_exp(%r, %r) = %s, ApproxExp gives %s' % (x, ccs, got, want), {'replay_request': ['approx_exp', x, ccs], 'got': got, 'expected': want})
     try:
         from . import c09_m
         c09_m.run(rep, tier)
